@@ -102,6 +102,25 @@ BUILT = {
         "dictionaries) is listed in known_findings.json."),
   design='DESIGN.md §4 C17',
   technique='deterministic simulation of a file store: seeded operation/fault histories against a reference map'),
+
+ 'C18': dict(
+  text=("Seeded search over CLI sessions: 1-4 in-process invocations of the "
+        "real emg3d.cli entry point over one directory (survey/model files "
+        "in the three formats, config files with drawn subsets of the "
+        "documented keys - half of the runs exactly one optional key, "
+        "cycling through every key of every section - overlapping "
+        "command-line arguments, forward/misfit/gradient, dry or real, "
+        "save/load/cache/--clean, unknown keys and flags, missing files) on "
+        "the simulated pool with virtual clock and seeded RNG. For every "
+        "invocation the checker performs the documented API equivalent and "
+        "compares data, misfit, n_observations, gradient byte-wise, the "
+        "saved simulation structurally and the log file."),
+  note=("Trusted: the checker's reading of docs/manual/cli.rst (each key is "
+        "the same-named API argument); clock-dependent solver-info entries "
+        "and the lazily filled grid cache are excluded from the comparison "
+        "of saved simulations."),
+  design='DESIGN.md §4 C18',
+  technique='deterministic simulation of CLI sessions (shared directory, simulated pool, virtual clock, seeded RNG) with a differential oracle against the Python API'),
 }
 
 NA = {
